@@ -754,16 +754,23 @@ fn run_guarded(prim: &Prim) -> (String, String, String) {
 
 const NAMES: [&str; 12] = ["a", "b", "ab", ".a", ".b", "-", "[", "*", "a]", "sub", "?", "\\"];
 
+/// continuation characters that sort *before* `/` (0x2f): for a directory `foo` next to `foo-bar`,
+/// sorting whole pathnames (`foo-bar/x` < `foo/x`) differs from sorting name by name (`foo` < `foo-bar`)
+const CONT_BELOW: [&str; 9] = ["-", ".", " ", "+", ",", "!", "#", "%", "-"];
+/// … and, for contrast, characters that sort after it (incl. 2-, 3- and 4-byte UTF-8)
+const CONT_ABOVE: [&str; 8] = ["0", "_", "a", "~", "\u{e9}", "\u{ff5e}", "\u{10000}", ":"];
+const TAILS: [&str; 5] = ["", "bar", "d", "x", "\u{e9}"];
+
 fn gen_dir(r: &mut Rng, plain: bool, prefix: &str, depth: usize, out: &mut Vec<Entry>) {
     let n = if depth == 0 { 4 + r.below(6) } else { 1 + r.below(5) };
-    let mut used: Vec<&str> = vec![];
+    let mut used: Vec<String> = vec![];
     for _ in 0..n {
         // the last two names are rarer
         let name = if r.chance(1, 12) { NAMES[10 + r.below(2)] } else { NAMES[r.below(10)] };
-        if used.contains(&name) {
+        if used.iter().any(|u| u == name) {
             continue;
         }
-        used.push(name);
+        used.push(name.to_string());
         let path = format!("{prefix}{name}");
         let roll = r.below(20);
         let want_dir = (name == "sub" && roll < 16) || roll < 8;
@@ -779,11 +786,50 @@ fn gen_dir(r: &mut Rng, plain: bool, prefix: &str, depth: usize, out: &mut Vec<E
                 }
             };
             out.push(Entry::Dir(path.clone(), mode));
+            let start = out.len();
             gen_dir(r, plain, &format!("{path}/"), depth + 1, out);
+            if r.chance(1, 3) {
+                // companions: sibling directories whose names continue this one's, with the same
+                // children, so that a wildcard over the siblings finds the same things below each
+                let below = format!("{path}/");
+                let mut kids: Vec<(String, bool)> = out[start..]
+                    .iter()
+                    .filter_map(|e| {
+                        let (p, is_dir) = match e {
+                            Entry::File(p) | Entry::Link(p, _) => (p, false),
+                            Entry::Dir(p, _) => (p, true),
+                        };
+                        let rest = p.strip_prefix(&below)?;
+                        if rest.contains('/') { None } else { Some((rest.to_string(), is_dir)) }
+                    })
+                    .collect();
+                if !kids.iter().any(|(k, _)| k == "x") {
+                    out.push(Entry::File(format!("{path}/x")));
+                    kids.push(("x".into(), false));
+                }
+                for _ in 0..1 + r.below(3) {
+                    let c = if r.chance(2, 3) { *r.pick(&CONT_BELOW) } else { *r.pick(&CONT_ABOVE) };
+                    let comp_name = format!("{name}{c}{}", r.pick(&TAILS));
+                    if used.contains(&comp_name) {
+                        continue;
+                    }
+                    used.push(comp_name.clone());
+                    let comp = format!("{prefix}{comp_name}");
+                    out.push(Entry::Dir(comp.clone(), 0o755));
+                    for (k, is_dir) in &kids {
+                        if *is_dir && depth + 1 < 2 {
+                            out.push(Entry::Dir(format!("{comp}/{k}"), 0o755));
+                            out.push(Entry::File(format!("{comp}/{k}/x")));
+                        } else {
+                            out.push(Entry::File(format!("{comp}/{k}")));
+                        }
+                    }
+                }
+            }
         } else if roll >= 16 && !plain && used.len() > 1 && r.chance(1, 2) {
             // a link to something generated before in the same directory (file, directory or link)
-            let target = used[r.below(used.len() - 1)];
-            out.push(Entry::Link(path, target.to_string()));
+            let target = used[r.below(used.len() - 1)].clone();
+            out.push(Entry::Link(path, target));
         } else if roll >= 17 && !plain {
             let target = match r.below(8) {
                 0 => "a",
@@ -798,6 +844,15 @@ fn gen_dir(r: &mut Rng, plain: bool, prefix: &str, depth: usize, out: &mut Vec<E
             out.push(Entry::Link(path, target.to_string()));
         } else {
             out.push(Entry::File(path));
+            if r.chance(1, 10) {
+                // the same for plain files: `a` next to `a.x`, `a-`, `a~`
+                let c = if r.chance(1, 2) { *r.pick(&CONT_BELOW) } else { *r.pick(&CONT_ABOVE) };
+                let comp_name = format!("{name}{c}{}", r.pick(&TAILS));
+                if !used.contains(&comp_name) {
+                    used.push(comp_name.clone());
+                    out.push(Entry::File(format!("{prefix}{comp_name}")));
+                }
+            }
         }
     }
 }
@@ -820,6 +875,20 @@ fn gen_tree(r: &mut Rng) -> Vec<Entry> {
             out.push(Entry::Dir("a[b".into(), 0o755));
             out.push(Entry::File("a[b/c]d".into()));
             out.push(Entry::File("a[b/*".into()));
+        }
+    }
+    if r.chance(1, 8) {
+        // multi-byte names: the order is bytewise on UTF-8 (U+FF5E = ef bd 9e sorts before
+        // U+10000 = f0 90 80 80, unlike in UTF-16), 2-byte U+00E9 before both, all after ASCII
+        for (n, dir) in [("\u{ff5e}", true), ("\u{10000}", true), ("\u{e9}", false), ("z", false), ("\u{ff5e}\u{10000}", false)] {
+            if dir {
+                out.push(Entry::Dir(n.to_string(), 0o755));
+                out.push(Entry::File(format!("{n}/x")));
+                out.push(Entry::File(format!("{n}/\u{10000}")));
+                out.push(Entry::File(format!("{n}/\u{ff5e}")));
+            } else {
+                out.push(Entry::File(n.to_string()));
+            }
         }
     }
     out
@@ -874,6 +943,11 @@ impl WordGen {
         if matches!(style, Style::Var | Style::QuotedVar) && self.nvars >= 2 {
             style = if has_bs { Style::Single } else { Style::Plain };
         }
+        // blanks would split the word (also after an unquoted expansion), `#` could start a comment
+        let fragile = text.contains([' ', '#', '&', ';', '(', ')', '<', '>', '|', '~']);
+        if fragile && matches!(style, Style::Plain | Style::Var) {
+            style = if r.chance(1, 2) { Style::Single } else { Style::Double };
+        }
         match style {
             Style::Plain => self.text.push_str(text),
             Style::Single => self.text.push_str(&format!("'{text}'")),
@@ -916,6 +990,9 @@ fn gen_guided(r: &mut Rng, tree: &[Entry]) -> Option<(String, Vec<(String, Strin
         1 => g.text.push_str("./"),
         _ => {}
     }
+    // "starry" words put a wildcard on every directory level, so that sibling directories all contribute
+    let starry = r.chance(1, 3);
+    let ncomp = path.split('/').count();
     for (i, name) in path.split('/').enumerate() {
         if i > 0 {
             match r.below(12) {
@@ -942,7 +1019,8 @@ fn gen_guided(r: &mut Rng, tree: &[Entry]) -> Option<(String, Vec<(String, Strin
         };
         let rest: String = chars[1..].iter().collect();
         let init: String = chars[..chars.len() - 1].iter().collect();
-        match r.below(12) {
+        let roll = if starry && i + 1 < ncomp { r.below(4) } else { r.below(12) };
+        match roll {
             0 | 1 => g.text.push_str(if first == '.' { ".*" } else { "*" }),
             2 => {
                 lit(&mut g, r, &first.to_string());
@@ -960,7 +1038,7 @@ fn gen_guided(r: &mut Rng, tree: &[Entry]) -> Option<(String, Vec<(String, Strin
                 }
             }
             5 => {
-                if first == '.' || first == ']' || first == '!' || first == '^' || first == '\\' || first == '[' || first == '-' {
+                if !first.is_ascii_alphanumeric() {
                     lit(&mut g, r, &first.to_string());
                 } else {
                     g.text.push_str(&format!("[{first}]"));
